@@ -42,6 +42,11 @@ LITERALS = [
     (RT + "W", "false", "W:600"), ("::core::option::Option<bool>", "false", "S(bool:false)"),
     ("::core::option::Option<bool>", "true", "S(bool:true)"), ("bool", "false", "bool:false"),
     ("::core::option::Option<u8>", "0", "S(u8:0)"), ("::core::option::Option<char>", "'\\0'", "S(char:0)"),
+    # "neutral" literals (`""`, `0`, `0.0`, `'\\0'`): what std types build by Default anyway, but W's Default is W(-1) and its From
+    # impls add an offset, so a shortcut from the literal to `Default::default()` shows in the value
+    (RT + "W", "\"\"", "W:900"), (RT + "W", "0", "W:400"), (RT + "W", "0.0", "W:800"), (RT + "W", "'\\0'", "W:700"),
+    (RT + "W", "0u8", "W:500"), (RT + "W", "b'\\0'", "W:500"), (RT + "W", "0u16", "W:1100"), (RT + "W", "-0", "W:400"),
+    ("::std::string::String", "\"\"", "String:~"), ("u8", "0", "u8:0"), ("f64", "0.0", "f64:0.0"), ("f64", "0", "f64:0.0"),
 ]
 # string literals whose text looks like code: they are values, never parsed
 for _txt in ["String::new()", "x.len()", "vec![1]", "1 + 2", "Default::default()", "::core::default::Default::default()",
